@@ -108,6 +108,9 @@ pub struct StunDecoded {
     pub nonce: Option<String>,
     pub data: Option<Vec<u8>>,
     pub use_candidate: bool,
+    /// Value of the PRIORITY attribute (0x0024) of a connectivity check, if present
+    /// (RFC 8445 §7.1.1): the priority a peer-reflexive candidate learnt from it gets.
+    pub priority: Option<u32>,
     /// Value of the LIFETIME attribute (0x000D), if present (TURN Allocate /
     /// Refresh responses). Honored per RFC 5766 §2.2 — the server may grant a
     /// lifetime shorter than the one requested by the client.
@@ -327,6 +330,7 @@ fn decode_stun_message(bytes: &[u8]) -> Result<StunDecoded> {
     let mut nonce = None;
     let mut data = None;
     let mut use_candidate = false;
+    let mut priority = None;
     let mut lifetime = None;
     while offset + 4 <= bytes.len() {
         let typ = u16::from_be_bytes([bytes[offset], bytes[offset + 1]]);
@@ -378,6 +382,11 @@ fn decode_stun_message(bytes: &[u8]) -> Result<StunDecoded> {
                     lifetime = Some(u32::from_be_bytes([value[0], value[1], value[2], value[3]]));
                 }
             }
+            0x0024 => {
+                if value.len() >= 4 {
+                    priority = Some(u32::from_be_bytes([value[0], value[1], value[2], value[3]]));
+                }
+            }
             0x0025 => {
                 use_candidate = true;
             }
@@ -398,6 +407,7 @@ fn decode_stun_message(bytes: &[u8]) -> Result<StunDecoded> {
         nonce,
         data,
         use_candidate,
+        priority,
         lifetime,
     })
 }
